@@ -7,7 +7,7 @@ from sa import tokl
 # ---------------------------------------------------------------- extractor A (lang.py / rrel.py)
 class PyGrammar:
     def __init__(s, trees):
-        s.funcs = {}
+        s.funcs = {}; s.trees = trees
         for t in trees:
             for n in t.body:
                 if isinstance(n, ast.FunctionDef) and not n.args.args: s.funcs[n.name] = n
@@ -29,7 +29,11 @@ class PyGrammar:
             s.rule(e.id); return ("ref", e.id)
         if isinstance(e, ast.Call):
             fn = e.func.id if isinstance(e.func, ast.Name) else None
-            if fn == "_": return ("re", e.args[0].value)
+            if fn == "_":
+                v = const_str(e.args[0], s.trees[0]) if not isinstance(e.args[0], ast.Constant) else e.args[0].value
+                if v is None and len(s.trees) > 1: v = const_str(e.args[0], s.trees[1])
+                if v is None: raise AnalysisError("regex of a grammar rule is not a constant string expression: " + ast.unparse(e)[:60])
+                return ("re", v)
             args = [s.expr(a) for a in e.args]
             body = args[0] if len(args) == 1 else ("seq", args)
             if fn == "Optional": return ("opt", body)
@@ -305,7 +309,9 @@ def build(root):
     tx = TxGrammar(open(root + "/textx/textx.tx", encoding="utf-8").read()); B = dict(tx.rules)
     for n in lang.body:      # base types used by textx.tx
         if isinstance(n, ast.Assign) and isinstance(n.value, ast.Call) and getattr(n.value.func, "id", None) == "_" and isinstance(n.targets[0], ast.Name) and n.targets[0].id in ("ID", "STRING", "INT", "FLOAT", "BOOL"):
-            B.setdefault(n.targets[0].id, ("re", n.value.args[0].value))
+            _v = const_str(n.value.args[0], lang)
+            if _v is None: raise AnalysisError("regex of base type %s is not a constant string expression" % n.targets[0].id)
+            B.setdefault(n.targets[0].id, ("re", _v))
     return {k: norm(v) for k, v in A.items()}, {k: norm(v) for k, v in B.items()}
 def r_C24(root):
     A, B = build(root)
